@@ -73,6 +73,13 @@ def norm_inf(v):
     return max([abs(a) for a in v], default=Fr(0))
 
 
+KERNEL_COUNTS = {}
+
+
+def kbump(k, n=1):
+    KERNEL_COUNTS[k] = KERNEL_COUNTS.get(k, 0) + n
+
+
 def monitor(op, out, st):
     if out in ('exception', 'bad-op', 'parse-error'):
         return f'unexpected {out}'
@@ -102,8 +109,15 @@ def monitor(op, out, st):
             return 'Interrupted reported without a stop request'
         if s == 'MaxTime' and not oot:
             return 'MaxTime reported although the time limit was not exceeded'
-        if s == 'Converged' and not math.isfinite(eps) and eps != -INF and math.isfinite(tol2):
-            return f'non-finite ε={eps!r} reported as Converged'
+        if s == 'Converged' and not math.isfinite(eps):
+            # "a non-finite residual is never reported as Converged" — two counted exemptions, both facts about
+            # `ε <= tolerance` on IEEE doubles, not about the chain:
+            if eps == -INF:
+                kbump('exempt_eps_neg_inf_unreachable(crit_nonneg_or_nan)')     # every criterion is a norm: ε ≥ 0 or NaN
+            elif not math.isfinite(tol2):
+                kbump('exempt_tolerance_not_finite(inf_tolerance_accepts_inf)')  # inf ≤ inf
+            else:
+                return f'non-finite ε={eps!r} reported as Converged'
         if s == 'Busy' and (k == mi or intr or oot or conv):
             return f'Busy although an exit condition holds (k={k}, max_iter={mi}, stop={intr})'
         if s not in ('Busy', 'Converged', 'MaxTime', 'MaxIter', 'NotFinite', 'NoProgress',
@@ -127,9 +141,8 @@ def monitor(op, out, st):
         mag = max([abs(a) for a in vals] + [abs(a / γ) for a in p] + [1e-300])
         two = False
         if name in ('ApproxKKT', 'ApproxKKT2'):
-            v = [(F(x[i]) - F(xh[i])) / F(γ) + F(gh[i]) - F(g[i]) for i in range(n)]
-            # documented with x − x̂; the code is handed p — the harness keeps p = x̂ − x only in
-            # the consistent cases, so compare with p directly when inconsistent
+            # the kernel is handed p and never reads x̂; the documented x − x̂ equals −p by `Consistent`
+            # (supplied at loop level by `*_eps_is_documented`)
             v = [-(F(p[i]) / F(γ)) + F(gh[i]) - F(g[i]) for i in range(n)]
             two = name.endswith('2')
             scale = F(1)
@@ -232,6 +245,7 @@ def kernel_stage(rep, broken, tier):
     else:
         broken.append('driver executable drv_c06 missing')
     rep.cov['distinct_nontrivial_kernel'] = len(distinct)
+    rep.cov['kernel_monitor_counts'] = KERNEL_COUNTS          # shared dict: the search stage keeps counting
 
     def search():
         for k in range(8):
